@@ -92,7 +92,7 @@ def construct (k : Ctor) (plat : Option PlatformDef) (user : List OptInst) : Str
   | some po =>
     let opts := po ++ user
     let eff := Scrapli.Options.effective k opts
-    let dom := allValidB eff
+    let dom := validOnB (Scrapli.Options.reached k opts defaults) eff
     let s := Scrapli.Options.specConfig k opts defaults
     -- hypotheses of `invalid_is_badoption` / `invalid_log_level_is_badoption`
     let badArg := fun (o : OptInst) => !argValid (spec o.opt) o
